@@ -4,6 +4,12 @@ import RsslVerif.Lemmas.MacroSubst
 import RsslVerif.Lemmas.MacroApi
 import RsslVerif.Lemmas.SpecInert
 import RsslVerif.Lemmas.MacroHang
+import RsslVerif.Lemmas.MacroTameSpec
+import RsslVerif.Lemmas.MacroTameRun
+import RsslVerif.Lemmas.MacroPaste
+import RsslVerif.Lemmas.MacroParseWF
+import RsslVerif.Lemmas.MacroTamePSpec
+import RsslVerif.Lemmas.MacroTamePRun
 /-!
 # C12 — macro expansion and inclusion equal reference textual substitution
 
@@ -15,17 +21,38 @@ namespace RsslVerif.Thm.C12
 open RsslVerif.Gen.MacroTables RsslVerif.Model.Macro RsslVerif.Model.Include RsslVerif.Spec.CPreMacro
 open RsslVerif.Lemmas.MacroScope RsslVerif.Lemmas.Include RsslVerif.Lemmas.MacroTerm RsslVerif.Lemmas.MacroSubst
 open RsslVerif.Lemmas.MacroApi RsslVerif.Lemmas.SpecInert RsslVerif.Lemmas.MacroHang
+open RsslVerif.Model.MacroTame RsslVerif.Lemmas.MacroTame RsslVerif.Lemmas.MacroTameSpec RsslVerif.Lemmas.MacroTameRun
+open RsslVerif.Lemmas.SpecExpand RsslVerif.Lemmas.MacroPaste
+open RsslVerif.Lemmas.MacroTameP RsslVerif.Lemmas.MacroTamePSpec RsslVerif.Lemmas.MacroTamePRun
 
 /-- Tie to the source: the shapes of `preprocess_command`, `apply_single_macro`, `preprocess_initial_file`,
-`Token::is_whitespace` and `compile()` the model was written against. -/
+`Token::is_whitespace`, `compile()` and of every `MacroSearchPosition` the model was written against. -/
 theorem source_shape :
     definingDirectives = ["define", "undef"] ∧ defineRetainsThenPushes = true ∧ undefRetains = true ∧
     argsShareDisabled = true ∧ initialDefinesUseDefinePath = true ∧
     pragmas = ["once", "warning"] ∧
     whitespaceTokens = ["Endline", "PhysicalEndline", "Whitespace", "Comment"] ∧
     (∀ t, (compileDefines t).map (·.1) = ["__HLSL_VERSION", "RSSL_TARGET_HLSL", "RSSL_TARGET_MSL"]) ∧
-    userDefinesAppended = true := by
-  refine ⟨by decide, by decide, by decide, by decide, by decide, by decide, by decide, ?_, by decide⟩
+    userDefinesAppended = true ∧
+    -- where the scan resumes (`SearchPos` in the model): start; after an invocation (`applyLoop`, `user` arm: the
+    -- early region is the whole replaced region, `early_function_pos = pos`); after `defined`; after `##`; at the end
+    searchPositions =
+      [["0", "0", "usize::MAX"],
+       ["new_end", "pos", "if macro_def.is_function { macro_index } else { usize::MAX }"],
+       ["pos + 1", "pos + 1", "usize::MAX"],
+       ["left_token_pos", "left_token_pos", "usize::MAX"],
+       ["tokens.len()", "tokens.len()", "usize::MAX"]] ∧
+    userArmLets = ["output.len()", "pos + tokens_added", "tokens.len() - remaining.len()"] ∧
+    searchPositionUses =
+      ["search_pos.early_function_pos",
+       "search_pos.last_macro_function_index == macro_index && i < search_pos.next_pos",
+       "activate_pos < search_pos.next_pos", "activate_pos = tokens.len() - trimmed.len()",
+       "trimmed = trim_whitespace_start(&tokens[i + 1..])", "pos.next_pos < tokens.len()"] ∧
+    -- the nesting limit of #include: `includeFile` with fuel `maxIncludeDepth` answers `Err.includeFuel` exactly
+    -- where the code answers `IncludeDepthExceeded` (the driver runs the model with this fuel)
+    maxIncludeDepth = 200 ∧ includeDepthCheckedBeforeLoad = true := by
+  refine ⟨by decide, by decide, by decide, by decide, by decide, by decide, by decide, ?_, by decide, by decide,
+    by decide, by decide, by decide, by decide⟩
   intro t; cases t <;> decide
 
 /-! ## Termination -/
@@ -252,6 +279,61 @@ example :
     applyEvents [] evs = [a2] ∧ lookup evs "A" = some a2 ∧ lookup evs "B" = none := by
   decide
 
+
+/-- **directive_takes_effect_from_its_line.** Redefinition and `#undef` take effect from their line onward: the text
+lines before a `#define` / `#undef` line (collected in `active_tokens`) are expanded with the macro list as it was
+before the directive (`flush`), the directive edits the list (`doDefine` / `doUndef`: `define_undef_scoping`), and
+every line after it is processed with the edited list and an empty `active_tokens`. -/
+theorem directive_takes_effect_from_its_line (inc : String → State → Except Err State) (cur : String)
+    (s : State × List PTok) (pre post : List Line) (cmd : List PTok) :
+    (foldLines inc cur s (pre ++ Line.define cmd :: post) =
+      match foldLines inc cur s pre with
+      | .error e => .error e
+      | .ok (st, active) =>
+        match flush st active with
+        | .error e => .error e
+        | .ok st' =>
+          match doDefine st'.macros cmd with
+          | .error e => .error e
+          | .ok ms => foldLines inc cur ({ st' with macros := ms }, []) post) ∧
+    (foldLines inc cur s (pre ++ Line.undef cmd :: post) =
+      match foldLines inc cur s pre with
+      | .error e => .error e
+      | .ok (st, active) =>
+        match flush st active with
+        | .error e => .error e
+        | .ok st' =>
+          match doUndef st'.macros cmd with
+          | .error e => .error e
+          | .ok ms => foldLines inc cur ({ st' with macros := ms }, []) post) := by
+  constructor
+  · rw [foldLines_append]
+    cases foldLines inc cur s pre with
+    | error e => rfl
+    | ok s1 =>
+      obtain ⟨st, active⟩ := s1
+      simp only [foldLines, stepLine]
+      cases flush st active with
+      | error e => rfl
+      | ok st' =>
+        simp only
+        cases doDefine st'.macros cmd with
+        | error e => rfl
+        | ok ms => rfl
+  · rw [foldLines_append]
+    cases foldLines inc cur s pre with
+    | error e => rfl
+    | ok s1 =>
+      obtain ⟨st, active⟩ := s1
+      simp only [foldLines, stepLine]
+      cases flush st active with
+      | error e => rfl
+      | ok st' =>
+        simp only
+        cases doUndef st'.macros cmd with
+        | error e => rfl
+        | ok ms => rfl
+
 /-! ## API-level defines -/
 
 /-- **api_defines_equal_file_defines.** Defines passed through the API behave exactly like `#define` lines placed
@@ -279,6 +361,29 @@ theorem api_defines_equal_file_defines (inc : String → State → Except Err St
   | error e => rfl
   | ok ms => simp only [fileStart_of_ne_nil hne]
 
+
+/-- **api_defines_equal_file_defines_tokens.** The same for *every* entry file, the empty one included, on what the
+rest of the compiler sees: the macro list, the once-set and the tokens after `prepare_tokens` (which drops white
+space -- the only difference for an empty entry file is the line end the lexer adds to an empty file). -/
+theorem api_defines_equal_file_defines_tokens (inc : String → State → Except Err State) (entry : String)
+    (api : List ApiDefine) (lines : List Line) :
+    (runInitial inc entry api lines).map (fun st => (st.macros, st.once, prepare st.out)) =
+      (runFile inc entry { macros := [], out := [], once := [] } (api.map defineLineOf ++ lines)).map
+        (fun st => (st.macros, st.once, prepare st.out)) := by
+  cases lines with
+  | cons l ls => rw [api_defines_equal_file_defines inc entry api (l :: ls) (by simp)]
+  | nil =>
+    cases api with
+    | nil => rfl
+    | cons d ds =>
+      unfold runInitial runFile
+      rw [fileStart_of_ne_nil (by simp : (d :: ds).map defineLineOf ++ [] ≠ []), foldLines_defines]
+      cases initialMacros [] (d :: ds) with
+      | error e => rfl
+      | ok ms =>
+        simp only [foldLines, fileStart, flush, applyMacros_eol, applyMacros_nil, Except.map]
+        rfl
+
 /-- examples of the fixed behaviour (these were defects of the tree before 9f7cdb8, see notes/C12.md):
 a name listed twice -- the later entry replaces the earlier one; `##` in a value is the paste operator;
 a name `F(X)` defines a function-like macro. -/
@@ -304,9 +409,6 @@ theorem macro_names_always_distinct (h : Handler) (fuel : Nat) (entry : String) 
       (initialMacros_nodup api (by simp [names]) hi)
 
 /-! ## Refinement of the reference -/
-
-/-- the reference reading of the macro list -/
-def specTable (env : List Entry) : List SMacro := env.map (fun e => ofMacro e.m)
 
 theorem find_specTable (pre post : List Entry) (m : Macro) (hpre : ∀ e ∈ pre, e.m.name ≠ m.name) :
     find (specTable (pre ++ ⟨m, false⟩ :: post)) m.name = some (ofMacro m) := by
@@ -335,9 +437,6 @@ theorem sinert_of_inert (env : List Entry) (ts : List PTok) (hs : List String) (
     rintro x ⟨e, he, rfl⟩
     simpa [ofMacro] using this e he
   · trivial
-
-theorem ppTokens_append (a b : List PTok) : ppTokens (a ++ b) = ppTokens a ++ ppTokens b := by
-  simp [ppTokens]
 
 /-- **expand_refines_spec_partial.** The model's expansion equals the reference algorithm (`Spec.CPreMacro.expand`,
 Prosser's hide-set algorithm, for some fuel) on the invocation of an object-like macro whose replacement list, like
@@ -396,6 +495,341 @@ theorem expand_refines_spec_partial (pre post : List Entry) (m : Macro) (before 
   · simp only [List.map_append, List.map_map, plain, ppTokens_append, hsb]
     simp [Function.comp_def]
 
+
+/-! ## Refinement of the reference on the tame class -/
+
+/-- all entries enabled, as `apply_macros` starts -/
+def allEnabled (defs : List Macro) : List Entry := defs.map (⟨·, false⟩)
+
+theorem specTable_allEnabled (defs : List Macro) : specTable (allEnabled defs) = defs.map ofMacro := by
+  simp [specTable, allEnabled, List.map_map, Function.comp_def]
+
+theorem rel_plain (defs : List Macro) (toks : List PTok) : Rel (allEnabled defs) (plain (ppTokens toks)) toks := by
+  refine ⟨by simp [plain, List.map_map, Function.comp_def], ?_, ?_⟩
+  · intro t _ x hx
+    obtain ⟨e, he, hd, _⟩ := mem_disabledNames.mp hx
+    simp only [allEnabled, List.mem_map] at he
+    obtain ⟨m, _, rfl⟩ := he
+    cases hd
+  · intro t ht n _ _ x hx
+    simp only [plain, List.mem_map] at ht
+    obtain ⟨k, _, rfl⟩ := ht
+    cases hx
+
+/-- **expand_refines_spec.** *The refinement theorem.*  Whenever a token list has a tame expansion `out` under a
+macro table (`Lemmas.MacroTame.Tame`: macros are object-like or function-like with any number of parameters,
+refer to themselves and to each other, invocations nest inside arguments and replacement lists, arguments contain
+parenthesised commas, span lines, are empty), then
+* the model of `apply_macros` returns `out`, and
+* the reference C algorithm (`Spec.CPreMacro.expand`, Prosser's algorithm with per-token hide sets, rescanning the
+  replacement list together with the rest of the source) returns, for some fuel, the same tokens -- white space aside,
+  which is no token for the reference.
+The relation between the two bookkeepings is `Lemmas.MacroTameSpec.Rel`: in the list rssl is scanning, every
+token's hide set contains the names of the disabled entries, and the tokens that name enabled macros have exactly
+that hide set.  A derivation exists exactly for the inputs accepted by the decision procedure `tameRun`
+(`tame_class_is_decided`), in particular for every input over a table of object-like macros (`object_like_refines_spec`); the
+side conditions of `Tame` exclude the deviation classes `differs_*` below, and only those were found necessary:
+replacement lists without `##` (`WFMacro.noConcat`; `paste_*` treat `##`), what an argument expands to names no enabled
+macro (`OnlyDisabled`), no invocation spans the end of an expanded replacement list (`NoFire`), a function-like name
+that is not invoked is not followed by a line end and `(` (`Kept`). -/
+theorem expand_refines_spec (defs : List Macro) (toks out : List PTok) (hwf : ∀ m ∈ defs, WFMacro m)
+    (h : Tame (allEnabled defs) toks out) :
+    applyMacros defs toks = .ok out ∧
+    ∃ fuel r, expand (defs.map ofMacro) fuel (plain (ppTokens toks)) = .ok r ∧ r.map (·.tok) = ppTokens out := by
+  constructor
+  · have := tame_model h toks SearchPos.start 0 rfl (Nat.le_refl _) (Nat.le_refl _) (passes_start _ _)
+    simpa [applyMacros, allEnabled] using this
+  · have hwf' : ∀ e ∈ allEnabled defs, WFMacro e.m := by
+      intro e he
+      simp only [allEnabled, List.mem_map] at he
+      obtain ⟨m, hm, rfl⟩ := he
+      exact hwf m hm
+    obtain ⟨r, hs, hro⟩ := tame_spec h hwf' (plain (ppTokens toks)) (rel_plain defs toks)
+    obtain ⟨f, hf⟩ := sexp_complete hs
+    rw [specTable_allEnabled] at hf
+    exact ⟨f, r, hf f (Nat.le_refl _), hro.toks⟩
+
+/-- **expand_refines_spec_decided.** Membership in the class of `expand_refines_spec` is decidable: if `tameRun`
+(executable, `Model/MacroTame.lean`) accepts a token list under a table with pairwise distinct names, rssl's expansion
+and the reference C algorithm both yield what it returns.  (The driver classifies every case of the correspondence run
+with `tameRun`: a case it accepts on which the real preprocessor differs from the harness's independent reference
+preprocessor is reported as a broken obligation.) -/
+theorem expand_refines_spec_decided (defs : List Macro) (toks out : List PTok) (fuel : Nat)
+    (hwf : ∀ m ∈ defs, WFMacro m) (hnd : (defs.map (·.name)).Nodup)
+    (h : tameRun fuel (allEnabled defs) toks = some out) :
+    applyMacros defs toks = .ok out ∧
+    ∃ fuel' r, expand (defs.map ofMacro) fuel' (plain (ppTokens toks)) = .ok r ∧ r.map (·.tok) = ppTokens out :=
+  expand_refines_spec defs toks out hwf
+    (tameRun_sound fuel _ _ _ (by simpa [entryNames, allEnabled, List.map_map, Function.comp_def] using hnd) h)
+
+
+/-- **tame_class_is_decided.** The class of `expand_refines_spec` is exactly what `tameRun` accepts: for a table with
+pairwise distinct names, a token list has a tame expansion `out` iff `tameRun` returns `out` for some fuel. -/
+theorem tame_class_is_decided (defs : List Macro) (toks out : List PTok) (hnd : (defs.map (·.name)).Nodup) :
+    Tame (allEnabled defs) toks out ↔ ∃ fuel, tameRun fuel (allEnabled defs) toks = some out := by
+  constructor
+  · intro h
+    obtain ⟨f, hf⟩ := tameRun_complete h
+    exact ⟨f, hf f (Nat.le_refl _)⟩
+  · rintro ⟨f, hf⟩
+    exact tameRun_sound f _ _ _ (by simpa [entryNames, allEnabled, List.map_map, Function.comp_def] using hnd) hf
+
+/-- **object_like_refines_spec.** Object-like macros in full: for every table of object-like macros (pairwise
+distinct names, replacement lists without `##`) -- with replacement lists that mention other macros and themselves,
+nested to any depth, self- and mutually referential -- and every token list, rssl's expansion equals the reference C
+algorithm: expansion of a self- or mutually referential macro stops exactly where the C rule ("a macro name found
+during the rescan of its own replacement is not replaced, and is no longer available for further replacement") says.
+rssl rescans a replacement list in isolation with the macro's flag set, C rescans it together with the rest of the
+source with the name in the hide set of every token of the list: with object-like macros only, no invocation spans
+the end of a replacement list, so the two coincide. -/
+theorem object_like_refines_spec (defs : List Macro) (toks : List PTok) (hnd : (defs.map (·.name)).Nodup)
+    (hobj : ∀ m ∈ defs, m.isFunction = false) (hwf : ∀ m ∈ defs, WFMacro m) (hnc : NoConcat toks) :
+    ∃ out fuel r, applyMacros defs toks = .ok out ∧
+      expand (defs.map ofMacro) fuel (plain (ppTokens toks)) = .ok r ∧ r.map (·.tok) = ppTokens out := by
+  have htab : ObjTable (allEnabled defs) := by
+    refine ⟨by simpa [entryNames, allEnabled, List.map_map, Function.comp_def] using hnd, ?_, ?_, ?_⟩
+    · intro e he
+      simp only [allEnabled, List.mem_map] at he
+      obtain ⟨m, hm, rfl⟩ := he
+      exact hobj m hm
+    · intro e he
+      simp only [allEnabled, List.mem_map] at he
+      obtain ⟨m, hm, rfl⟩ := he
+      exact (hwf m hm).noConcat
+    · intro e he t ht i hi
+      simp only [allEnabled, List.mem_map] at he
+      obtain ⟨m, hm, rfl⟩ := he
+      have := ((hwf m hm).argRange t ht i hi).2
+      rw [hobj m hm] at this
+      cases this
+  obtain ⟨out, hT⟩ := tame_object_total _ (allEnabled defs) rfl htab toks hnc
+  obtain ⟨h1, fuel, r, h2, h3⟩ := expand_refines_spec defs toks out hwf hT
+  exact ⟨out, fuel, r, h1, h2, h3⟩
+
+
+section Examples
+/-- located tokens -/
+private def L (ks : List Tok) : List PTok := ks.map (⟨·, true⟩)
+
+/-- non-vacuity of `object_like_refines_spec`: `#define A A B`, `#define B A C`, `#define C B` (self- and mutually
+referential), text `A B C` -/
+example : ∃ out fuel r,
+    applyMacros [⟨"A", false, 0, L [.id "A", .ws, .id "B"]⟩, ⟨"B", false, 0, L [.id "A", .ws, .id "C"]⟩,
+      ⟨"C", false, 0, L [.id "B"]⟩] (L [.id "A", .ws, .id "B", .ws, .id "C"]) = .ok out ∧
+    expand ([⟨"A", false, 0, L [.id "A", .ws, .id "B"]⟩, ⟨"B", false, 0, L [.id "A", .ws, .id "C"]⟩,
+      ⟨"C", false, 0, L [.id "B"]⟩].map ofMacro) fuel (plain (ppTokens (L [.id "A", .ws, .id "B", .ws, .id "C"]))) = .ok r ∧
+    r.map (·.tok) = ppTokens out := by
+  apply object_like_refines_spec
+  · decide
+  · decide
+  · intro m hm; exact wfMacro_of_wfB m (by revert m; decide)
+  · unfold NoConcat; decide
+
+/-- what the expansion is: `A` gives `A A B`, `B` gives `A B B`, `C` gives `A B C`: each name stops at its own
+repetition -/
+example : tameRun 12 (allEnabled [⟨"A", false, 0, L [.id "A", .ws, .id "B"]⟩, ⟨"B", false, 0, L [.id "A", .ws, .id "C"]⟩,
+      ⟨"C", false, 0, L [.id "B"]⟩]) (L [.id "A", .ws, .id "B", .ws, .id "C"]) =
+    some (L [.id "A", .ws, .id "A", .ws, .id "B", .ws, .id "A", .ws, .id "B", .ws, .id "B", .ws, .id "A", .ws, .id "B",
+      .ws, .id "C"]) := by decide
+
+/-- non-vacuity of `expand_refines_spec_decided`: `#define F(X,Y) X + Y`, `#define G(X) F(X, (X,2)) G(X)`; text
+`G ( F(1,3) ) ;` -- a nested invocation inside an argument, an argument with a parenthesised comma, a blank before
+the `(`, a self-reference -/
+example : tameRun 20 (allEnabled [⟨"F", true, 2, L [.arg 0, .ws, .punct "+", .ws, .arg 1]⟩,
+      ⟨"G", true, 1, L [.id "F", .lparen, .arg 0, .comma, .ws, .lparen, .arg 0, .comma, .int "2", .rparen, .rparen,
+        .ws, .id "G", .lparen, .arg 0, .rparen]⟩])
+      (L [.id "G", .ws, .lparen, .ws, .id "F", .lparen, .int "1", .comma, .int "3", .rparen, .ws, .rparen, .ws, .punct ";"]) =
+    some (L [.int "1", .ws, .punct "+", .ws, .int "3", .ws, .punct "+", .ws, .lparen, .int "1", .ws, .punct "+", .ws,
+      .int "3", .comma, .int "2", .rparen, .ws, .id "G", .lparen, .int "1", .ws, .punct "+", .ws, .int "3", .rparen,
+      .ws, .punct ";"]) := by decide
+end Examples
+
+
+/-- **trailing_function_name_is_invoked.** An invocation that is completed by the text *after* an expansion
+(`early_function_pos` / `last_macro_function_index`).  After an invocation was replaced by its expansion
+`R0 ++ g :: blanks` (`P`: the tokens before it; `next_pos` behind the expansion, `early_function_pos` at its start,
+`lastFn`: the macro just applied if it is function-like): if `g` is the name of an enabled function-like macro other
+than the one just applied, only blanks (white space, comments) follow it inside the expansion -- e.g. what is left of
+an empty argument or of a macro with an empty replacement list -- and the text behind the expansion starts, after
+blanks, with `(`, then `find_single_macro` reports an invocation of that macro at the position of `g`; whatever
+precedes `g` in the expansion cannot be invoked (its `(` would lie inside the expansion).  The loop then reads the
+arguments from the text behind the expansion (`applyLoop_user_step`).
+Whether C does the same depends on the hide set of `g` and on what followed `g` when C looked at it:
+`differs_painted_function_name_reinvoked`, `differs_function_name_before_vanished_macro` (Thm/C12Boundary.lean) are
+inputs where it does not, `agrees_on_invocation_completed_after_expansion` inputs where it does. -/
+theorem trailing_function_name_is_invoked (env : List Entry) (P R0 blanks rest : List PTok) (g : String) (b : Bool)
+    (mj : Nat) (e : Entry) (lastFn : Option Nat)
+    (hsel : Selects env g mj e) (hfn : e.m.isFunction = true) (hlast : lastFn ≠ some mj)
+    (hnc : NoConcat R0) (hblank : ∀ t ∈ blanks, t.tok.isBlank = true)
+    (hparen : ∃ b' tail, trimStart rest = ⟨.lparen, b'⟩ :: tail) :
+    findSingle (P ++ (R0 ++ ⟨.id g, b⟩ :: blanks) ++ rest)
+      ⟨P.length + (R0 ++ ⟨.id g, b⟩ :: blanks).length, P.length, lastFn⟩ env =
+      .ok (.user mj (P.length + R0.length)) :=
+  early_scan_finds_trailing_name env P R0 blanks rest g b mj e lastFn hsel hfn hlast hnc hblank hparen
+
+
+
+/-- **parse_yields_wellformed_macro.** The hypothesis `WFMacro` of the refinement theorems is what `Macro::parse`
+guarantees: for a `#define` (or API define) whose tokens are as the lexer produces them (no `MacroArg`, no `Concat`;
+no identifier spelled `$…`, the reference's name of a parameter) and contain no `##`, the parsed macro is well formed:
+parameter indices are in range and occur only in function-like macros, `##` would have become `Concat`. -/
+theorem parse_yields_wellformed_macro (cmd : List PTok) (m : Macro) (h : parseDefine cmd = .ok m)
+    (hlex : RsslVerif.Lemmas.MacroParseWF.LexerTokens cmd) (hnohash : ∀ t ∈ cmd, t.tok ≠ .hashhash) : WFMacro m :=
+  RsslVerif.Lemmas.MacroParseWF.parseDefine_wf cmd m h hlex hnohash
+
+/-! ## `##` -/
+
+/-- **paste_is_single_token.** `##` pastes its neighbours into one token: in a text whose other tokens start no
+operation, the two tokens next to the operator (white space -- blanks, comments, line ends -- on either side of it
+aside) are replaced, together with the operator and that white space, by one token, and that token is spelled like
+the two operands joined (`spell`: what `unlex` writes).  Which joined spellings are one token is decided by
+`pasteTokens`; `paste_matches_lexer` compares that with the lexer. -/
+theorem paste_is_single_token (env : List Entry) (before w1 w2 after : List PTok) (lt c rt m : PTok)
+    (hc : c.tok = .concat) (hw1 : ∀ t ∈ w1, t.tok.isWhitespace = true) (hw2 : ∀ t ∈ w2, t.tok.isWhitespace = true)
+    (hlt : lt.tok.isWhitespace = false) (hrt : rt.tok.isWhitespace = false)
+    (hpre : Inert env (before ++ lt :: w1)) (hpaste : pasteTokens lt rt = .ok m)
+    (hpost : Inert env (m :: after)) :
+    applyLoop env (before ++ lt :: (w1 ++ c :: (w2 ++ rt :: after))) SearchPos.start = .ok (before ++ m :: after) ∧
+    spell m.tok = spell lt.tok ++ spell rt.tok :=
+  ⟨paste_step env before w1 w2 after lt c rt m hc hw1 hw2 hlt hrt hpre hpaste hpost,
+   (pasteTokens_spelling lt rt m hpaste).1⟩
+
+/-- non-vacuity: `P ## 1 ;` (as left by the substitution of `#define CAT(X,Y) X ## Y` in `CAT(P,1);`) gives `P1 ;` -/
+example : applyLoop [] ([] ++ ⟨.id "P", true⟩ :: ([⟨.ws, true⟩] ++ ⟨.concat, true⟩ :: ([⟨.ws, true⟩] ++
+      ⟨.int "1", true⟩ :: [⟨.punct ";", true⟩]))) SearchPos.start = .ok ([] ++ ⟨.id "P1", true⟩ :: [⟨.punct ";", true⟩]) ∧
+    spell (Tok.id "P1") = spell (Tok.id "P") ++ spell (Tok.int "1") := by
+  apply paste_is_single_token [] [] _ _ _ ⟨.id "P", true⟩ ⟨.concat, true⟩ ⟨.int "1", true⟩ ⟨.id "P1", true⟩
+  · rfl
+  · intro t ht; simp at ht; subst ht; rfl
+  · intro t ht; simp at ht; subst ht; rfl
+  · rfl
+  · rfl
+  · intro t ht; simp at ht; rcases ht with rfl | rfl <;> simp [InertTok]
+  · rfl
+  · intro t ht; simp at ht; rcases ht with rfl | rfl <;> simp [InertTok]
+
+/-- **paste_matches_lexer.** `pasteTokens` against the lexer (C10's model `Model.Lexer`, itself tied to lexer.rs):
+(1) the model's keyword list is the union of the lexer's keyword table and its reserved words; (2) for an identifier
+pasted with an identifier or a number whose joined spelling is identifier-shaped and no keyword, `pasteTokens` yields
+the identifier of the joined spelling, and the lexer reads the joined text as exactly that identifier followed by the
+line end it appends (the `[token, Endline]` shape `apply_single_macro` accepts) -- for every such pair of spellings;
+(3) for the one-character operators of the model, `pasteTokens` merges a pair exactly when the lexer reads the two
+characters as one token (all 49 pairs); (4) for a number pasted with a number whose joined spelling is a decimal
+number without leading `0` of at most 18 digits, `pasteTokens` yields the integer token of the joined spelling and the
+lexer reads the joined text as one integer literal with the value the digits denote (`lex_digits`, using C10's
+`digitsWith_closed`).  Outside these shapes (`1 ## x`, octal, 19+ digits, keywords) the model answers `unsupported`. -/
+theorem paste_matches_lexer :
+    ((∀ s ∈ keywords, s ∈ RsslVerif.Gen.LexTables.keywords.map (·.1) ∨ s ∈ RsslVerif.Gen.LexTables.reservedWords) ∧
+      (∀ s ∈ RsslVerif.Gen.LexTables.keywords.map (·.1), s ∈ keywords) ∧
+      (∀ s ∈ RsslVerif.Gen.LexTables.reservedWords, s ∈ keywords)) ∧
+    (∀ (a b : String) (k : String → Tok), (k = Tok.id ∨ k = Tok.int) →
+      IdentText (RsslVerif.Model.Lexer.str (a ++ b)) → keywords.contains (a ++ b) = false →
+      pasteTokens ⟨.id a, true⟩ ⟨k b, true⟩ = .ok ⟨.id (a ++ b), true⟩ ∧
+      RsslVerif.Model.Lexer.readToEnd (RsslVerif.Model.Lexer.str (a ++ b)) =
+        .ok [⟨.id (RsslVerif.Model.Lexer.str (a ++ b)), 0, (RsslVerif.Model.Lexer.str (a ++ b)).length⟩,
+             ⟨.simple .Endline, (RsslVerif.Model.Lexer.str (a ++ b)).length,
+               (RsslVerif.Model.Lexer.str (a ++ b)).length⟩]) ∧
+    (∀ a ∈ modelOperators, ∀ b ∈ modelOperators,
+      punctMerges.contains (a, b) = lexesToOneToken (RsslVerif.Model.Lexer.str (a ++ b))) ∧
+    (∀ (a b : String), a.startsWith "0" = false → (a ++ b).length ≤ 18 →
+      NumberText (RsslVerif.Model.Lexer.str (a ++ b)) →
+      pasteTokens ⟨.int a, true⟩ ⟨.int b, true⟩ = .ok ⟨.int (a ++ b), true⟩ ∧
+      RsslVerif.Model.Lexer.readToEnd (RsslVerif.Model.Lexer.str (a ++ b)) =
+        .ok [⟨.litInt (RsslVerif.Spec.Dec2Bin.ofDigits 10
+                (RsslVerif.Model.Lexer.digitRun RsslVerif.Model.Lexer.decDigit? (RsslVerif.Model.Lexer.str (a ++ b)))),
+              0, (RsslVerif.Model.Lexer.str (a ++ b)).length⟩,
+             ⟨.simple .Endline, (RsslVerif.Model.Lexer.str (a ++ b)).length,
+               (RsslVerif.Model.Lexer.str (a ++ b)).length⟩]) :=
+  ⟨keywords_agree, fun a b k hk hs hkw => paste_identifiers_matches_lexer a b k hk hs hkw,
+   paste_operators_match_lexer, fun a b h0 hl hs => paste_numbers_matches_lexer a b h0 hl hs⟩
+
+
+/-! ## Refinement of the reference on the tame class with `##` -/
+
+theorem relP_plain (defs : List Macro) (toks : List PTok) (hnc : NoConcat toks) :
+    RelP (allEnabled defs) (plain (ppTokens toks)) toks := by
+  refine ⟨?_, ?_, ?_⟩
+  · have : (plain (ppTokens toks)).map (·.tok) = ppTokens toks := by
+      simp [plain, List.map_map, Function.comp_def]
+    rw [this]
+    exact pn_of_noConcat _ toks hnc
+  · intro t _ x hx
+    obtain ⟨e, he, hd, _⟩ := mem_disabledNames.mp hx
+    simp only [allEnabled, List.mem_map] at he
+    obtain ⟨m, _, rfl⟩ := he
+    cases hd
+  · intro t ht n _ _ x hx
+    simp only [plain, List.mem_map] at ht
+    obtain ⟨k, _, rfl⟩ := ht
+    cases hx
+
+/-- **expand_refines_spec_with_paste.** The refinement theorem for macro tables with `##`: whenever a token list
+(text: no `Concat` token, the lexer produces `HashHash`) has a tame expansion `out` in the sense of
+`Lemmas.MacroTameP.TameP` -- `Tame` plus: a token next to `##` is pasted with its neighbour without either being
+expanded, the merged token names no enabled macro and is read again; the arguments of an invocation contain no `##`;
+an argument whose parameter stands next to `##` contains no enabled macro name and is not empty -- the model of
+`apply_macros` returns `out` and the reference C algorithm returns the same tokens.
+rssl pastes while it rescans a replacement list (left to right, interleaved with expansions), C pastes the whole
+replacement list inside `subst` before it rescans: the proof goes through the *paste normal form* of the list rssl is
+scanning (`PN`: every paste carried out, white space dropped), which is what the reference's list spells (`RelP`),
+`doPastes_pn` (the reference's `doPastes` carries out exactly the pastes of the normal form) and `replaceParams_paste`
+(raw arguments next to `##`, expanded ones elsewhere).  The side conditions are the ones of `expand_refines_spec` plus
+the three above; `differs_empty_argument_next_to_paste` shows the last one necessary. -/
+theorem expand_refines_spec_with_paste (defs : List Macro) (toks out : List PTok) (hwf : ∀ m ∈ defs, WFMacroP m)
+    (hnc : NoConcat toks) (h : TameP (allEnabled defs) toks out) :
+    applyMacros defs toks = .ok out ∧
+    ∃ fuel r, expand (defs.map ofMacro) fuel (plain (ppTokens toks)) = .ok r ∧ r.map (·.tok) = ppTokens out := by
+  constructor
+  · have := tameP_model h toks SearchPos.start 0 rfl (Nat.le_refl _) (Nat.le_refl _) (passes_start _ _)
+    simpa [applyMacros, allEnabled] using this
+  · have hwf' : ∀ e ∈ allEnabled defs, WFMacroP e.m := by
+      intro e he
+      simp only [allEnabled, List.mem_map] at he
+      obtain ⟨m, hm, rfl⟩ := he
+      exact hwf m hm
+    obtain ⟨r, hs, hro⟩ := tameP_spec h hwf' (plain (ppTokens toks)) (relP_plain defs toks hnc)
+    obtain ⟨f, hf⟩ := sexp_complete hs
+    rw [specTable_allEnabled] at hf
+    exact ⟨f, r, hf f (Nat.le_refl _), hro.toks⟩
+
+/-- **expand_refines_spec_with_paste_decided.** The class with `##` is decided by `tameRunP`
+(`Model/MacroTame.lean`): what it accepts (table with pairwise distinct names) is what rssl and the reference C
+algorithm both yield.  The driver classifies every program of the correspondence run with it (`C12.tame`): about half
+of the generated programs lie in the class. -/
+theorem expand_refines_spec_with_paste_decided (defs : List Macro) (toks out : List PTok) (fuel : Nat)
+    (hwf : ∀ m ∈ defs, WFMacroP m) (hnd : (defs.map (·.name)).Nodup) (hnc : NoConcat toks)
+    (h : tameRunP fuel (allEnabled defs) toks = some out) :
+    applyMacros defs toks = .ok out ∧
+    ∃ fuel' r, expand (defs.map ofMacro) fuel' (plain (ppTokens toks)) = .ok r ∧ r.map (·.tok) = ppTokens out :=
+  expand_refines_spec_with_paste defs toks out hwf hnc
+    (tameRunP_sound fuel _ _ _ (by simpa [entryNames, allEnabled, List.map_map, Function.comp_def] using hnd) h)
+
+
+/-- **tame_class_is_part_of_class_with_paste.** Every `Tame` derivation over a table whose replacement lists contain
+no `##` is a `TameP` derivation: `expand_refines_spec` is the `##`-free special case of
+`expand_refines_spec_with_paste`. -/
+theorem tame_class_is_part_of_class_with_paste (defs : List Macro) (toks out : List PTok)
+    (hb : ∀ m ∈ defs, NoConcat m.body) (h : Tame (allEnabled defs) toks out) : TameP (allEnabled defs) toks out :=
+  tame_to_tameP h (by
+    intro e he
+    simp only [allEnabled, List.mem_map] at he
+    obtain ⟨m, hm, rfl⟩ := he
+    exact hb m hm)
+
+section ExamplesP
+private def LP (ks : List Tok) : List PTok := ks.map (⟨·, true⟩)
+
+/-- non-vacuity: `#define CAT(X,Y) X ## Y`, `#define V(X) CAT(v_, X) + CAT(X, 1)`, `#define ID(X) X`;
+text `ID(V(a)) CAT(+, +)`: both operands parameters, a paste inside a nested invocation, an operator paste -/
+example : tameRunP 30 (allEnabled [⟨"CAT", true, 2, LP [.arg 0, .ws, .concat, .ws, .arg 1]⟩,
+      ⟨"V", true, 1, LP [.id "CAT", .lparen, .id "v_", .comma, .ws, .arg 0, .rparen, .ws, .punct "+", .ws,
+        .id "CAT", .lparen, .arg 0, .comma, .ws, .int "1", .rparen]⟩,
+      ⟨"ID", true, 1, LP [.arg 0]⟩])
+      (LP [.id "ID", .lparen, .id "V", .lparen, .id "a", .rparen, .rparen, .ws, .id "CAT", .lparen, .punct "+", .comma,
+        .ws, .punct "+", .rparen]) =
+    some (LP [.id "v_a", .ws, .punct "+", .ws, .id "a1", .ws, .punct "++"]) := by decide
+end ExamplesP
+
 /-! ## Inclusion -/
 
 /-- **include_is_paste.** If `#include "f"` succeeds (the file loads, is not marked `#pragma once`, and has no
@@ -450,6 +884,13 @@ theorem include_is_paste (h : Handler) (fuel : Nat) (cur f : String) (lines pre 
         | ok st4 =>
           simp only [hfl3] at hrun ⊢
           exact hrun
+
+
+/-- **include_of_empty_file.** The case `include_is_paste` leaves out: a file without lines contributes exactly the
+line end the lexer adds to an empty file (white space: nothing after `prepare_tokens`), no macro, no once-mark. -/
+theorem include_of_empty_file (h : Handler) (fuel : Nat) (f : String) (st : State) (hload : h f = some []) :
+    includeFile h (fuel + 1) f st = .ok { st with out := st.out ++ [eol] } := by
+  simp only [includeFile, hload, runFile, fileStart, foldLines, flush, applyMacros_eol, ite_self]
 
 /-- **pragma_once_once.** Once a file with a top-level `#pragma once` line has been processed, it is in the once-set,
 it stays there for the rest of the compilation (the set only grows, through every nested include), and every later
